@@ -209,16 +209,6 @@ func c13Verdict(r *vReport, errs []*Error, rp map[string]any, npath string) {
 	}
 }
 
-func vInt(v any) int {
-	switch x := v.(type) {
-	case int:
-		return x
-	case float64:
-		return int(x)
-	}
-	return 0
-}
-
 func c03QuoteCopy(s string) string { return "'" + strings.ReplaceAll(s, "'", "''") + "'" }
 
 func TestVerifC13(t *testing.T) {
